@@ -229,6 +229,44 @@ class World(object):
         assert len(data) == len(items), "crawl op with duplicate source"
         return lambda: self.t.index_batch_crawl(data, 1)
 
+    def _op_pcrawl(self, op, tr):
+        """A crawl batch advanced by `nsteps` generator steps and then abandoned (the request
+        is never resumed). The model cannot predict a partial effect: it ADOPTS the pages,
+        links and attached prefixes from the implementation afterwards, so only twin / id
+        oracles (C11, C12) are meaningful across this letter."""
+        _, items, nsteps = op
+        data = {s: list(tgts) for s, tgts in items}
+        m = self.m
+
+        def call():
+            gen = self.t.index_batch_crawl_iter(data, 1)
+            for _ in range(nsteps):
+                st = next(gen)
+                if st.done:
+                    break
+            gen.close()
+            return True
+
+        def post():
+            t = self.t
+            m.pages = {lru: bool(n.is_crawled()) for n, lru in t.pages_iter()}
+            m.named.update(m.pages)
+            m.links.clear()
+            for p in list(m.pages):
+                for s_, t_, w_ in t.get_page_links(p, include_inbound=False, include_internal=True, include_outbound=True):
+                    m.links[(s_, t_)] += w_
+            for n, lru in t.webentity_prefix_iter():
+                wid = n.webentity()
+                if m.prefix.get(lru) != wid:
+                    m.prefix[lru] = wid
+                    m.named.add(lru)
+                    if wid not in m.issued:
+                        m.issued.append(wid)
+                    m.max_id = max(m.max_id, wid)
+
+        tr.extra["post"] = post
+        return call
+
     # webentity edits ------------------------------------------------------
     def _nth_id(self, idx):
         ids = self.m.live_ids()
